@@ -53,6 +53,8 @@ def trees(draw):
                     ambiguous[0] = False
                     child.alt_lines = [e[1] for e in child.entries] + ['addi x0, x0, 0']
                 node.entries.append(('inc', child))
+                if draw(st.integers(0, 7)) == 0:
+                    node.entries.append(('again', child))    # the same include line a second time: the file is spliced in twice
                 i = j
             else:
                 node.entries.append(('line', lines[i]))
@@ -67,7 +69,7 @@ def trees(draw):
         return node
 
     root = build(lines, 0)
-    cwd = draw(st.sampled_from(['srcdir', 'root', 'elsewhere', 'elsewhere_decoys']))
+    cwd = draw(st.sampled_from(['srcdir', 'root', 'elsewhere', 'elsewhere_decoys', 'incdir']))
     return {'root': root, 'cwd': cwd, 'main_rel': draw(st.booleans()), 'compress': draw(st.booleans()),
             'cli': draw(st.integers(0, 3)) == 0, 'prog': prog}
 
@@ -80,7 +82,7 @@ def flatten(node, use_alt=False):
         elif e[0] == 'bin':
             out.append('bytes ' + ' '.join(str(b) for b in bytes.fromhex(e[2])))
         else:
-            child = e[1]
+            child = e[1]   # ('inc', child) and ('again', child) both splice the file's lines in
             if use_alt and child.alt_lines is not None:
                 out.extend(child.alt_lines)
             else:
@@ -124,6 +126,11 @@ def write_tree(node, directory, rootdir, names_used, stats, depth=0, anc_dirs=()
             stats.setdefault('written', {}).setdefault('bytes:' + os.path.basename(path), set()).add(path)
             continue
         child = e[1]
+        if e[0] == 'again':
+            text.append(getattr(child, 'include_line', None) or '# (repeat dropped)')
+            if getattr(child, 'include_line', None):
+                stats['repeated_includes'] = stats.get('repeated_includes', 0) + 1
+            continue
         if under_inc and not child.name.startswith('f'):
             stats['uniq'] = stats.get('uniq', 0) + 1
             child.name = 'fu%d.asm' % stats['uniq']
@@ -181,6 +188,7 @@ def write_tree(node, directory, rootdir, names_used, stats, depth=0, anc_dirs=()
                 child.alt_lines = None
         form = child.form
         line = ['include %s', 'include "%s"', "include '%s'", 'include %s  # pulled in', 'include   %s'][form] % written
+        child.include_line = line
         text.append(line)
         stats['names'].append(os.path.basename(path))
         stats.setdefault('written', {}).setdefault(written, set()).add(path)
@@ -231,7 +239,7 @@ def judge(case, res):
                     os.makedirs(d, exist_ok=True)
                     with open(os.path.join(d, nm), 'w') as f:
                         f.write('DECOY_CONSTANT = 1\nerror decoy file from the working directory was included\n')
-        cwd = {'srcdir': srcdir, 'root': root, 'elsewhere': other, 'elsewhere_decoys': other}[case['cwd']]
+        cwd = {'srcdir': srcdir, 'root': root, 'elsewhere': other, 'elsewhere_decoys': other, 'incdir': os.path.join(root, 'inc1')}[case['cwd']]
         inc = [os.path.join(root, 'inc1'), os.path.join(root, 'inc2')]
         comp = case['compress']
         # expectation(s): own splicer, assembled from a string (no includes left)
@@ -287,6 +295,8 @@ def judge(case, res):
         res.count('trees_with_ancestor_decoys')
     if stats.get('bins'):
         res.count('trees_with_include_bytes')
+    if stats.get('repeated_includes'):
+        res.count('trees_with_a_file_included_twice')
     if any(len(v) > 1 for v in stats.get('written', {}).values()):
         res.count('trees_where_one_include_text_means_different_files')
     if len(set(stats['names'])) < len(stats['names']):
@@ -299,13 +309,22 @@ def judge(case, res):
 
 def _dump(node):
     return {'name': node.name, 'place': node.place, 'form': node.form, 'alt': node.alt_lines,
-            'entries': [['line', e[1]] if e[0] == 'line' else (['bin', e[1], e[2]] if e[0] == 'bin' else ['inc', _dump(e[1])]) for e in node.entries]}
+            'entries': [['line', e[1]] if e[0] == 'line' else (['bin', e[1], e[2]] if e[0] == 'bin' else ([e[0], _dump(e[1])] if e[0] == 'inc' else ['again', node.entries.index(('inc', e[1]))])) for e in node.entries]}
 
 
 def _load(d):
     n = Node()
     n.name, n.place, n.form, n.alt_lines = d['name'], d['place'], d['form'], d['alt']
-    n.entries = [('line', e[1]) if e[0] == 'line' else (('bin', e[1], e[2]) if e[0] == 'bin' else ('inc', _load(e[1]))) for e in d['entries']]
+    n.entries = []
+    for e in d['entries']:
+        if e[0] == 'line':
+            n.entries.append(('line', e[1]))
+        elif e[0] == 'bin':
+            n.entries.append(('bin', e[1], e[2]))
+        elif e[0] == 'inc':
+            n.entries.append(('inc', _load(e[1])))
+        else:
+            n.entries.append(('again', n.entries[e[1]][1]))
     return n
 
 
@@ -323,7 +342,8 @@ def run(tier):
                 'line) with cwd = source dir / tree root / unrelated dir / unrelated dir full of decoys of every included name; main '
                 'path absolute or relative; oracle: own splicer -> flat text assembled from a string: bytes, labels and constants '
                 'equal (either candidate when a name is ambiguous). non-trivial = accepted tree with depth >= 2, a -i file, or decoys '
-                'in the cwd; distinct by (tree, cwd, mode)')
+                'in the cwd; distinct by (tree, cwd, mode). Trees also contain include_bytes lines (same name, different file per directory), '
+                'files included twice, and the cwd may be one of the -i directories')
     per = max(1, N[tier] // env.NPROC)
     chk.merge(env.run_shards(shard, [(per, s, tier == 'thorough') for s in range(env.NPROC)]))   # shrinking file trees is slow: thorough only
     return chk.finish()
